@@ -315,28 +315,14 @@ Print Assumptions streamed_backward_refuted.
    c_remove_sysline, c_year_loop = the loop of SyslogProcessor::process_missing_year with the year as reader-side state,
    c_stream_year = stages 1 (end: disable_drop_data for a streamed file) - 2 - 3; tied on every run of the check against
    SyslogProcessor on plain / .gz / .bz2 / .lz4 files with set modification times, with year boundaries).
+   D y = dated_y (Some y), the oracle of the year y.  Domain hypothesis (C11): whether a line carries a timestamp does
+   not depend on the year filled in (29 February in a common year, Issue #245, is excluded). *)
+From S4.Proofs Require Import CachesYearProofs CachesYearParam CachesYearDriver.
 
-   PROVED (for every oracle, in particular the oracle of any ONE year): clear_syslines establishes the cache invariant of
-   that oracle whatever oracle filled the caches before (block-zero analysis dates with the filler year; only Line objects
-   survive and they do not depend on the oracle); remove_sysline keeps it and, unlike drop_sysline, removes the range
-   with the message, so nothing dangles; hence every find_sysline_year call of the reverse pass between two changes of
-   the year is answered as the spec of that year's oracle says and cannot panic (backward calls: streamed_drop_disabled_refines
-   / tar_member_refines give the block-level safety with drops disabled).
-
-   NOT PROVED (full statement): yearless_driver_complete - for every bs > 0, file, year-less oracle dated_y (with C11's
-   domain hypotheses: the datedness of a line does not depend on the year, Issue #245 excluded), mtime year Y, container
-   and drop plan:  obs (c_stream_year dated_y bs f TOL Y None None plan (gate state)) = the spec groups of f, the i-th
-   dated dated_y (Some y_i) with (y_i) = the years Model/Year.v assign_years 2 off Y infers; no Panic.
-   Missing: (1) the invariant ACROSS a change of the year: messages dated with the later year stay in `syslines` and the
-   LRU cache, and sr_inv is stated for one oracle; it needs sr_inv "up to the instant" - the machine is parametric in the
-   instant (its control flow uses `dated` only through Some / None) - plus the provenance of instants (remove_sysline
-   clears both LRU caches at every change of the year, so inside one call all parses use the current year);
-   (2) c_year_loop = Year.walk on the instants of the spec groups (induction from the last group upwards; the stop tests);
-   (3) stage 3 is answered from `syslines` alone (a check_store hit does not consult the oracle, so the filler-year oracle
-   of stage 3 is never asked for a stored message).  The composed program (WP-H) would use yearless_driver_complete in
-   the form of streamed_driver_struct; until then it keeps the pure reader for year-less files. *)
-From S4.Proofs Require Import CachesYearProofs.
-Theorem yearless_reverse_pass_partial : forall dated bs (f : file) st fo, 0 < bs ->
+(* within one year: clear_syslines establishes the cache invariant of that year's oracle whatever oracle filled the
+   caches before; remove_sysline keeps it and removes the range with the message (nothing dangles); every
+   find_sysline_year call is answered as that year's spec says *)
+Theorem yearless_reverse_pass_one_year : forall dated bs (f : file) st fo, 0 < bs ->
   (lr_inv bs f (s_lr st) ->
      @rinv dated bs f (lr_inv bs f) (c_clear_syslines st) /\ no_dangling (c_clear_syslines st)) /\
   (@rinv dated bs f (lr_inv bs f) st -> no_dangling st ->
@@ -344,5 +330,85 @@ Theorem yearless_reverse_pass_partial : forall dated bs (f : file) st fo, 0 < bs
   (forall st' r p, @rinv dated bs f (lr_inv bs f) st -> no_dangling st -> c_find_sysline dated bs f st fo = (st', r, p) ->
      @rinv dated bs f (lr_inv bs f) st' /\ no_dangling st' /\ r <> Panic /\ sres_ok dated bs f st fo r).
 Proof. exact CachesYearProofs.yearless_ops_keep_invariant. Qed.
-Print Assumptions yearless_reverse_pass_partial.
+Print Assumptions yearless_reverse_pass_one_year.
+
+(* (a) PARAMETRICITY: find_sysline looks at stored instants nowhere.  rdS phi st = st with the instant of every stored
+   message replaced by phi (its offset); a call on st and the same call on rdS phi st do the same, provided the answer of
+   the latter carries the instants phi gives (which it does when rdS phi st satisfies the invariant of the call's
+   oracle); the message a search builds then carries phi of its offset *)
+Theorem yearless_parametric : forall bs (f : file) (phi : N -> Z) dated st fo st' r p st2 r2 p2,
+  c_find_sysline dated bs f st fo = (st', r, p) -> c_find_sysline dated bs f (rdS bs phi st) fo = (st2, r2, p2) ->
+  (forall n s b, r2 = Found (n, s) -> ss_begin bs s = Some b -> phi b = ss_dt s) ->
+  st2 = rdS bs phi st' /\ r2 = rd_res bs phi r /\ p2 = p /\
+  (forall n s b, p = QSearch -> r = Found (n, s) -> ss_begin bs s = Some b -> phi b = ss_dt s).
+Proof. exact CachesYearParam.find_sysline_rd2. Qed.
+Print Assumptions yearless_parametric.
+
+(* the invariant "up to the instant": YI y st = the state re-dated with the year y satisfies the cache invariant of D y
+   and nothing dangles.  A find_sysline_year call with the year y keeps it, never panics, and its answer re-dated is the
+   spec answer of year y; a message it builds carries the instant of year y *)
+Theorem yearless_find_sysline_year : forall dated_y bs (f : file), 0 < bs -> forall y st fo st' r p,
+  YI dated_y bs f y st -> c_find_sysline (D dated_y y) bs f st fo = (st', r, p) ->
+  YI dated_y bs f y st' /\ r <> Panic /\
+  sres_ok (D dated_y y) bs f (rdS bs (phi dated_y f y) st) fo (rd_res bs (phi dated_y f y) r) /\
+  sys_step (D dated_y y) bs f (rdS bs (phi dated_y f y) st) (rdS bs (phi dated_y f y) st') (rd_res bs (phi dated_y f y) r) /\
+  (forall n s, r = Found (n, s) -> p = QSearch -> rd_ssl bs (phi dated_y f y) s = s).
+Proof. exact CachesYearDriver.yi_find. Qed.
+Print Assumptions yearless_find_sysline_year.
+
+(* the CHANGE of the year: remove_sysline empties both LRU caches (provenance: from here on every parse uses the new
+   year), and with them empty the invariant of one year is the invariant of every year *)
+Theorem yearless_year_change : forall dated_y bs (f : file), 0 < bs ->
+  (forall y y' l, dated_y (Some y) l = None <-> dated_y (Some y') l = None) -> forall y y' st b,
+  YI dated_y bs f y st ->
+  YI dated_y bs f y' (c_remove_sysline bs st b) /\ s_lr (c_remove_sysline bs st b) = s_lr st.
+Proof. exact CachesYearDriver.yi_remove. Qed.
+Print Assumptions yearless_year_change.
+
+(* THE WHOLE REVERSE PASS, any number of year changes, early stop at --dt-after included, from any reader whose
+   LineReader can read every block (plain file, tar member, streamed file after disable_drop_data): no call panics, the
+   model's defensive outcomes do not occur, and the reader ends in the invariant of the year the pass ended with *)
+Theorem yearless_reverse_pass_safe : forall dated_y bs (f : file) tol fa fuel st Y fo, 0 < bs ->
+  (forall y y' l, dated_y (Some y) l = None <-> dated_y (Some y') l = None) ->
+  lr_inv bs f (s_lr st) ->
+  let res := c_year_loop dated_y fuel bs f tol fa (c_clear_syslines st) Y fo None in
+  snd res <> Panic /\ snd res <> Done /\
+  (snd res = OutOfFuel \/ exists y', snd res = Found y' /\ YI dated_y bs f y' (fst res)).
+Proof. exact CachesYearDriver.yearless_reverse_pass_safe. Qed.
+Print Assumptions yearless_reverse_pass_safe.
+
+(* (c), first half: a call that check_store answers does not consult the oracle - stage 3 (oracle: the filler year) gets
+   the stored messages with the instants the reverse pass gave them; find_sysline changes `syslines` only by inserting
+   the message it built (CachesYearParam.find_sysline_frame) *)
+Theorem yearless_store_hit_oracle_free : forall (D1 D2 : list N -> option Z) bs (f : file) st fo a stm,
+  sr_check_store bs f st fo = (Some a, stm) -> c_find_sysline D1 bs f st fo = c_find_sysline D2 bs f st fo.
+Proof. exact CachesYearParam.find_sysline_hit_oracle_free. Qed.
+Print Assumptions yearless_store_hit_oracle_free.
+
+(* NOT PROVED (full statement): yearless_driver_complete - for every bs > 0, file, year-less oracle dated_y (domain
+   hypothesis above), mtime year Y, container and drop plan:
+     obs (c_stream_year dated_y bs f TOL Y None None plan (gate state)) = the spec groups of f, the i-th dated
+     D y_i (its head line), where (y_i, t_i) = Model/Year.v walk / assign_years (fuel 2, C11) on the messages; no Panic.
+   CLOSED: (a) the invariant up to the instant and across year changes (theorems above) and the safety of the whole pass.
+   MISSING, exactly:
+   (b) c_year_loop = Year.walk: the induction from the last group upwards showing that the call at (begin of the group
+       below) - 1 is answered with the group above (spec_at_group; groups are contiguous), that the jump test is Year.redate's
+       test on the instants phi y b (available: yearless_find_sysline_year gives the built message the instant phi y b),
+       the three stop tests, the fuel bound (two attempts per message: C11_assign_fuel), and the resulting store:
+       every group at b holds the instant phi y_b b (frame: find_sysline_frame; remove_sysline takes out only b);
+   (c) stage 3 from the store: every find_sysline of c_stream_win at a group begin is a check_store hit (all groups are
+       stored after the pass; drop_data_try on a plain file removes only messages behind), hence oracle-free
+       (yearless_store_hit_oracle_free) and emits the stored instants; its structure follows from cached_driver_complete
+       on the state re-dated with any one year (yearless_parametric).
+   The composed program (WP-H) would use yearless_driver_complete in the form of streamed_driver_struct; until (b), (c)
+   close it keeps the pure reader for year-less files; what it can use today: yearless_reverse_pass_safe (no Panic, final
+   invariant) and yearless_find_sysline_year. *)
+Theorem yearless_driver_partial : forall dated_y bs (f : file) tol fa fuel st Y fo, 0 < bs ->
+  (forall y y' l, dated_y (Some y) l = None <-> dated_y (Some y') l = None) ->
+  lr_inv bs f (s_lr st) ->
+  let res := c_year_loop dated_y fuel bs f tol fa (c_clear_syslines st) Y fo None in
+  snd res <> Panic /\ snd res <> Done /\
+  (snd res = OutOfFuel \/ exists y', snd res = Found y' /\ YI dated_y bs f y' (fst res)).
+Proof. exact CachesYearDriver.yearless_reverse_pass_safe. Qed.
+Print Assumptions yearless_driver_partial.
 
